@@ -531,3 +531,30 @@ Proof.
   rewrite cross_map, countZ_map. cbn [fst snd]. unfold countZ. f_equal. f_equal. apply filter_ext. intros p.
   rewrite Ha. unfold owner_is. rewrite (first_true_relabel phi rules rules' HF). reflexivity.
 Qed.
+
+(* ------------------------------------------------------------------ top-level cumulative table *)
+Lemma row_counts_length {A} n (blocked : list (nat * A)) : length (row_counts n blocked) = n.
+Proof. unfold row_counts. rewrite map_length, seq_length. reflexivity. Qed.
+
+Lemma cumulative_comparisons_data_spec {rec} lt sizes (adm : rec -> rec -> bool) rules L R tab i d :
+  cumulative_comparisons_data lt sizes adm rules L R = Some tab ->
+  rules <> [] -> (i < length rules)%nat ->
+  exists cart, cartesian lt sizes = Some cart /\
+    let counts := row_counts (length rules) (block adm rules L R) in
+    let r := nth i tab d in
+    row_count r = countZ (fun p => adm (fst p) (snd p) && owner_is rec 0 rules i (fst p) (snd p)) (cross L R) /\
+    cumulative_rows r = sumZ (firstn (S i) counts) /\
+    start r = sumZ (firstn i counts) /\
+    cartesian_count r = cart /\
+    length tab = length rules.
+Proof.
+  unfold cumulative_comparisons_data. destruct (cartesian lt sizes) as [cart|]; [|discriminate].
+  intros H Hne Hi. injection H as <-. exists cart. split; [reflexivity|]. cbv zeta.
+  unfold cumulative_comparisons.
+  assert (Hlen : (i < length (row_counts (length rules) (block adm rules L R)))%nat) by (rewrite row_counts_length; exact Hi).
+  destruct (cumulative_table_spec cart _ i d Hlen) as (H1 & H2 & H3 & H4).
+  repeat split; try assumption.
+  - rewrite H1. apply row_counts_nth; assumption.
+  - unfold cumulative_table. rewrite map_length, combine_length. unfold cum_asc. rewrite run_sum_length, row_counts_length.
+    apply Nat.min_id.
+Qed.
